@@ -82,6 +82,9 @@ type Ctx struct {
 	extraCut     map[edge]bool          // edges excluded for the current top-level guard query (a case split on a φ)
 	mutGlobals   map[*ssa.Global]string // statelessRule: module globals that change after initialisation, with the reason
 	condDepth    int
+	ruleOnly     []string                    // only: the rule prefixes whose obligations are recorded
+	apartDone    map[string]bool             // apart: the shared runs already made in this check, per filter
+	running      map[string]bool             // only: the shared runs in progress
 	fnArgs       map[string]fnArg            // calleeEnvV: functions handed to callees as arguments, by the name they carry in the callee env
 	condEnv      Env                         // canonCond: the frame conditions are rendered in (nil: the function's own)
 	fnSubst      map[ssa.Value]*ssa.Function // guardViaTable: function-valued fields of the current table element
@@ -708,8 +711,59 @@ func (c *Ctx) pos(p token.Pos) string {
 // Check records one decided obligation.
 func (c *Ctx) Check(rule, key string, ok bool, pos token.Pos, detail string, witness ...string) *Obl {
 	o := &Obl{Rule: rule, Key: short(key), OK: ok, Pos: c.pos(pos), Detail: short(detail), Witness: witness}
+	if !c.ruleWanted(rule + "::" + key) {
+		return o
+	}
 	c.obls = append(c.obls, o)
 	return o
+}
+
+// ruleWanted: while another property's rules run here in part (only), the obligations of its other rules are not
+// this check's.
+func (c *Ctx) ruleWanted(rule string) bool {
+	if c.ruleOnly == nil {
+		return true
+	}
+	// (prefixes name a rule, or a rule and the beginning of a key: "C07.K1::sink:MultihashAlgorithms")
+	for _, p := range c.ruleOnly {
+		if strings.HasPrefix(rule, p) {
+			return true
+		}
+	}
+	return false
+}
+
+// only runs the rules of another property whose names start with one of the prefixes inside this check (see apart);
+// a property already running further up is not entered again.
+func (c *Ctx) only(run func(*Ctx), prefixes ...string) {
+	id := fmt.Sprintf("%p", run)
+	if c.running[id] {
+		return
+	}
+	if c.running == nil {
+		c.running = map[string]bool{}
+	}
+	c.running[id] = true
+	old := c.ruleOnly
+	if old != nil {
+		// (already filtered: keep to what both ask for)
+		var both []string
+		for _, p := range prefixes {
+			if c.ruleWanted(p) {
+				both = append(both, p)
+			}
+		}
+		prefixes = both
+		if prefixes == nil {
+			// (nothing of it is wanted here)
+			delete(c.running, id)
+			return
+		}
+	}
+	c.ruleOnly = prefixes
+	c.apart(run)
+	c.ruleOnly = old
+	delete(c.running, id)
 }
 
 // Unresolved records a failed obligation for an anchor that could not be bound (never a silent pass).
@@ -718,7 +772,11 @@ func (c *Ctx) Unresolved(rule, what string) {
 }
 
 // Min declares the minimal number of instances a rule must have bound.
-func (c *Ctx) Min(rule string, n int) { c.mins[rule] = n }
+func (c *Ctx) Min(rule string, n int) {
+	if c.ruleWanted(rule) {
+		c.mins[rule] = n
+	}
+}
 
 func (c *Ctx) Note(format string, a ...interface{}) {
 	c.notes = append(c.notes, short(fmt.Sprintf(format, a...)))
@@ -1061,4 +1119,25 @@ func (c *Ctx) methodsOf(nt *types.Named) []*ssa.Function {
 	}
 	sort.Slice(out, func(i, j int) bool { return out[i].Name() < out[j].Name() })
 	return out
+}
+
+// apart runs another property's rules inside this check with the rendering switches of the running check put aside:
+// the shared rules name values the way their own run does.
+func (c *Ctx) apart(run func(*Ctx)) {
+	// (once per check and filter: what a shared run records does not depend on where it is started from)
+	memo := fmt.Sprintf("%p|%s", run, strings.Join(c.ruleOnly, ","))
+	if c.ruleOnly == nil {
+		memo = fmt.Sprintf("%p|*", run)
+	}
+	if c.apartDone[memo] {
+		return
+	}
+	if c.apartDone == nil {
+		c.apartDone = map[string]bool{}
+	}
+	c.apartDone[memo] = true
+	oi, oh := c.inlineFns, c.inlineHelpers
+	c.inlineFns, c.inlineHelpers = nil, false
+	run(c)
+	c.inlineFns, c.inlineHelpers = oi, oh
 }
